@@ -827,8 +827,125 @@ func (g *pgen) stmt(lx *lex, mayEnd bool) []stmt {
 }
 
 // genProgram draws a whole program: a parameterless root function.
+// limits of the slot assignment (compile/ast/blocks.go, core.SharedSlotStart):
+// slots 0..191 are the locals of one scope (parameters included), 192..255
+// the variables shared between scopes of one function.
+const maxLocalSlots = 192
+const maxSharedSlots = 64
+
+// genBoundaryProgram builds a program at the slot limits: a scope (the root
+// function, a closure block, or a function without blocks) with 185..196 local
+// slots, each local assigned a distinct value and summed afterwards, plus
+// get / set blocks on a shared variable called between the assignments and the
+// sum; or a function with 60..67 variables shared with a block.
+func genBoundaryProgram(g *pgen) *scope {
+	g.nscope++
+	root := &scope{id: g.nscope, isFunc: true, boundary: true}
+	lname := func(i int) string { return fmt.Sprintf("l%03d", i) }
+	kind := g.weighted([]int{35, 35, 15, 15})
+	if kind == 3 {
+		// shared-variable limit
+		k := 60 + g.uni(8)
+		g.nscope++
+		blk := &scope{id: g.nscope}
+		for i := 1; i <= k; i++ {
+			n := fmt.Sprintf("s%02d", i)
+			root.body = append(root.body, &sAssign{n, &eInt{int64(i)}}) // assigned again in the block: not final
+			blk.body = append(blk.body, &sOpAssign{name: n, op: "+=", e: &eInt{1}})
+		}
+		blk.final = &eInt{0}
+		root.body = append(root.body, &sAssign{"g", &eBlock{blk}}, &sCall{&eCall{fn: "g"}}, &sAssign{"t", &eInt{0}})
+		for i := 1; i <= k; i++ {
+			root.body = append(root.body, &sOpAssign{name: "t", op: "+=", e: &eVar{fmt.Sprintf("s%02d", i)}})
+		}
+		root.final = &eObject{[]string{"t"}}
+		analyze(root)
+		return root
+	}
+	total := 185 + g.uni(12) // local slots of the scope
+	body := func(n int, shared bool) []stmt {
+		var b []stmt
+		if shared {
+			g.nscope++
+			set := &scope{id: g.nscope, params: []string{"a"}, pk: []byte{kInt}, pa: []int{0}}
+			set.body = []stmt{&sAssign{"sh", &eVar{"a"}}}
+			set.final = &eInt{0}
+			g.nscope++
+			get := &scope{id: g.nscope}
+			get.final = &eVar{"sh"}
+			b = append(b, &sAssign{"sh", &eInt{1000}}, &sAssign{"st", &eBlock{set}}, &sAssign{"gt", &eBlock{get}})
+		}
+		// the values are not constants (k is a call result / a parameter):
+		// constant propagation would otherwise remove the locals altogether
+		if shared {
+			b = append(b, &sAssign{"k", &eCall{fn: "gt"}})
+		}
+		for i := 1; i <= n; i++ {
+			b = append(b, &sAssign{lname(i), &eBin{op: "+", l: &eVar{"k"}, r: &eInt{int64(i)}}})
+		}
+		if shared {
+			b = append(b, &sAssign{"r", &eCall{fn: "gt"}}, &sCall{&eCall{fn: "st", args: []expr{&eInt{5000}}}})
+		}
+		b = append(b, &sAssign{"t", &eInt{0}})
+		for i := 1; i <= n; i++ {
+			b = append(b, &sOpAssign{name: "t", op: "+=", e: &eVar{lname(i)}})
+		}
+		if shared {
+			b = append(b, &sAssign{"q", &eCall{fn: "gt"}})
+		}
+		return b
+	}
+	switch kind {
+	case 0: // root function with closures: locals st gt k r t q + n
+		root.body = body(total-6, true)
+		root.final = &eObject{[]string{"r", "t", "q"}}
+	case 1: // closure block: parameter p + st gt k r t q + n
+		g.nscope++
+		blk := &scope{id: g.nscope, params: []string{"p"}, pk: []byte{kInt}, pa: []int{0}}
+		blk.body = body(total-7, true)
+		blk.final = &eObject{[]string{"r", "t", "q", "p"}}
+		root.body = []stmt{&sAssign{"h", &eBlock{blk}}, &sAssign{"x", &eCall{fn: "h", args: []expr{&eInt{7}}}}}
+		root.final = &eObject{[]string{"x"}}
+	default: // nested function without blocks: parameter k + t + n
+		g.nscope++
+		fn := &scope{id: g.nscope, isFunc: true, params: []string{"k"}, pk: []byte{kInt}, pa: []int{0}}
+		fn.body = body(total-2, false)
+		fn.final = &eObject{[]string{"t"}}
+		root.body = []stmt{&sAssign{"f", &eFunc{fn}}, &sAssign{"x", &eCall{fn: "f", args: []expr{&eInt{10}}}}}
+		root.final = &eObject{[]string{"x"}}
+	}
+	analyze(root)
+	return root
+}
+
+// slotDemand returns the largest number of local slots any scope of the
+// program needs and the largest number of shared variables of a function.
+func slotDemand(root *scope) (locals, shared int) {
+	for _, s := range allScopes(root) {
+		n := len(s.params)
+		for name := range s.mentions {
+			if s.isParam(name) {
+				continue
+			}
+			if o := s.resolve(name); o == s && !s.root.shared[bkey{s, name}] {
+				n++
+			}
+		}
+		if n > locals {
+			locals = n
+		}
+		if s.isFunc && len(s.shared) > shared {
+			shared = len(s.shared)
+		}
+	}
+	return
+}
+
 func genProgram(t *rapid.T) *scope {
 	g := &pgen{t: t, budget: 25}
+	if g.chance(5) {
+		return genBoundaryProgram(g)
+	}
 	g.nscope++
 	root := &scope{id: g.nscope, isFunc: true}
 	lx := (*lex)(nil).child(root, "")
